@@ -19,8 +19,9 @@ const (
 	ContentTypeImage = "image"
 	// ContentTypeAudio represents audio content type
 	ContentTypeAudio = "audio"
-	// ContentTypeEmbeddedResource represents embedded resource content type
-	ContentTypeEmbeddedResource = "embedded_resource"
+	// ContentTypeEmbeddedResource represents embedded resource content type.
+	// On the wire an embedded resource is a content item of type "resource" (MCP schema: EmbeddedResource).
+	ContentTypeEmbeddedResource = "resource"
 )
 
 // MCP protcol Layer
